@@ -198,6 +198,8 @@ def builtinMethod (b : String) (v : Val) : Option Val :=
   | "first" => match v.autoDeref with | .seq (x :: _) => some x | _ => none
   | b =>
     if b.startsWith "field:" then v.field (.ident ⟨(b.drop 6).toString, default⟩)   -- a getter
+    else if b.startsWith "const:" then ((b.drop 6).toString.toInt?).map Val.int      -- a call whose result the generator knows
+    else if b.startsWith "conststr:" then (unhex (b.drop 9).toString).map Val.str
     else none
 
 def rustPrims (m : Meanings) : Prims where
